@@ -161,6 +161,8 @@ def run_case(case, want_trace=False):
                         plen = size - 1
                     elif more and num > 0 and st_["lenkind"] == "long":
                         plen = size + 1
+                    elif more and num > 0 and st_["lenkind"] in ("empty", "half", "double", "triple"):
+                        plen = {"empty": 0, "half": size // 2, "double": 2 * size, "triple": 3 * size}[st_["lenkind"]]
                     payload = bytes((si * 17 + num * 5 + i) % 256 for i in range(plen))
                     b1 = (num, more, szx)
                     opts.append((R.O_BLOCK1, b1))
@@ -347,7 +349,7 @@ def _step(draw):
         stp["rel"] = draw(st.sampled_from(["next"] * 8 + ["restart", "restart", "repeat", "skip", "earlier", "absolute", "steal", "steal"]))
         stp["final"] = draw(st.sampled_from([False, False, True]))
         stp["plen"] = draw(st.integers(0, 1100))
-        stp["lenkind"] = draw(st.sampled_from(["exact"] * 6 + ["short", "long"]))
+        stp["lenkind"] = draw(st.sampled_from(["exact"] * 9 + ["short", "long", "empty", "half", "double", "triple"]))
         stp["num"] = draw(st.integers(1, 5))
         if draw(st.integers(0, 3)) == 0:
             stp["b2szx"] = draw(st.sampled_from([0, 2, 6]))
@@ -417,7 +419,7 @@ def selftest():
 RULE = (
     "Histories of 1-25 requests from 3 raw clients (two share an IP) to a real aiocoap server with three resources (one in a nested site): per step client, resource, query (none / k=1), "
     "method (PUT/POST/FETCH/GET), an idle time before it from {0,1,50,92,94,150,185,187,400 s} and one of: Block1 block chosen relative to the model state of that key (next in order / restart at 0 / "
-    "repeat / skip one / an earlier one / absolute number / the next block of another key's assembly on that resource), final or not, size exponent 0/1/2/6, payload exact / one byte short / one byte long, optionally with Block2 (0, szx); a plain request; a Block2 "
+    "repeat / skip one / an earlier one / absolute number / the next block of another key's assembly on that resource), final or not, size exponent 0/1/2/6, payload exact / one byte short / one byte long / empty / half / two or three times the block size, optionally with Block2 (0, szx); a plain request; a Block2 "
     "request for block 0-4 or far beyond the end. Handlers record (body, endpoint, method, query) and return a serial-numbered rendering of generated length (0 ... 3000). Oracle = reference model keyed "
     "(endpoint, method, path, query): handler invoked exactly for complete in-order bodies with exactly that body; intermediate block => 2.31 echoing Block1; continuation without / not extending an assembly => 4.08; "
     "length contradiction => 4.00; none of them invokes the handler; never 5.xx; Block2 NUM>0 => exact slice of the cached rendering with M iff bytes remain, beyond the end 4.00, no rendering 4.08; state idle < 92.5 s "
